@@ -26,6 +26,8 @@ func runC14(r *Run, p *Prog) {
 	// L9: ... and nothing else in the handler waits for the peer: the accepted connection is read and written only
 	// through the context-aware wrapper (a lingering-close drain, a raw copy loop are not interruptible)
 	siblingRules(r, p, "C10", []string{"S9"}, "L9")
+	// L11: Shutdown, the accept loop and the handlers' accounting all take the Service mutex: it is released on every path
+	siblingRules(r, p, "C16", []string{"LB"}, "L11")
 	// L10: however a connection ends - read error, expired context, handler error - the handler leaves its loop (a retry
 	// on "temporary" errors keeps a handler whose context is done spinning, and serving never drains)
 	siblingRules(r, p, "C10", []string{"S1", "S2"}, "L10")
